@@ -41,7 +41,9 @@ pub fn genesis_world(net: NetID, fee_mult: u128, variant: u8) -> World {
         0 => world_mel(net, 1_000_000_000, fee_mult),
         1 => world(net, out_t(1_000_000_000, Denom::Sym), 1 << 40, fee_mult, BTreeMap::from([stake(1, 0, 2, 1000)])),
         2 => world(net, out_t(1_000_000_000, Denom::Erg), 12_345, fee_mult, BTreeMap::from([stake(1, 0, 1, 5), stake(2, 1, 3, 7)])),
-        _ => world(net, out_t(1 << 100, Denom::Mel), 1 << 100, fee_mult, BTreeMap::new()),
+        3 => world(net, out_t(1 << 100, Denom::Mel), 1 << 100, fee_mult, BTreeMap::new()),
+        // a fee pool beyond the maximum coin value (the fee pool is a tally, not a coin: nothing bounds it by 2^120)
+        _ => world(net, out_t(1 << 100, Denom::Mel), (1 << 121) + (1 << 40) + 12_345, fee_mult, BTreeMap::new()),
     }
 }
 
